@@ -157,6 +157,10 @@ fn choose_tz(prop: &str, shard: u64) {
         _ => "UTC",
     };
     std::env::set_var("TZ", tz);
+    if prop == "C20" && p_c20::forced_utc_shard(shard) {
+        flexi_logger::DeferredNow::force_utc();
+        ctl::set_forced_utc();
+    }
 }
 
 fn run(args: &Args) -> i32 {
